@@ -693,7 +693,13 @@ class SArr(SArrBase):
         return self._inplace(self * o)
 
     def __itruediv__(self, o):
-        return self._inplace(self / o)
+        before = self.copy()
+        r = self._inplace(self / o)
+        if r is not NotImplemented and not isinstance(o, SArrBase):
+            # ghost provenance for specifications: this array is `before / o`
+            self.meta["before_division"] = before
+            self.meta["divided_by"] = core.to_real(to_term(o))
+        return r
 
     def _cmp(self, o, f):
         return self._ew(o, f, kind="b")
